@@ -133,7 +133,7 @@ class Engine:
                 'ident': rng.choice(idents), 'with_size': rng.random() < 0.35, 'style': style,
                 'early': style == 'se' and rng.random() < 0.3, 'align': 0}
 
-    def make_case(self, rng, s, root=None, maxdepth=None, size=1.0, klass=None, opts=None, styles=True, nested_bias=False, gen_api=False, embed_bias=None, full=False):
+    def make_case(self, rng, s, root=None, maxdepth=None, size=1.0, klass=None, opts=None, styles=True, nested_bias=False, gen_api=False, embed_bias=None, full=False, nest_only=False):
         root = root or s.root
         vg = bu.ValueGen(s, rng, maxdepth=maxdepth if maxdepth is not None else rng.choice([1, 2, 2, 3]), size=size)
         if embed_bias is not None: vg.embed_bias = embed_bias
@@ -147,6 +147,7 @@ class Engine:
         g.corder = self.corder.get(s.name)
         g.thash = self.thash.get(s.name)
         if full: g.create_bias = 1.0
+        if nest_only: g.nest_only = True; g.create_bias = 0.0
         o = dict(opts or self.toplevel_opts(rng, s, root))
         if o['style'] == 'c' and bu.has_nested(node):
             # flatcc_builder.h: create_buffer is not suitable as a container for buffers created with start/end_buffer
